@@ -23,6 +23,8 @@ def installation(proto, rng, n_acs=None, n_zones=None, old_format=False):
                        "sp": (20 + rng.randrange(8)) if proto == "at4" else 100 + 5 * rng.randrange(30), "temp_raw": 650 + rng.randrange(150),
                        "spill": rng.randrange(2), "timer": rng.randrange(2), "err": 0}
         a["timers"] = (rng.choice([None, (rng.randrange(24), rng.randrange(60))]), rng.choice([None, (rng.randrange(24), rng.randrange(60))]))
+        if rng.random() < 0.5:
+            a["legacy_start"], a["legacy_count"] = rng.randrange(0, 4), rng.randrange(0, 5)
         acs.append(a)
     zones = []
     for z in range(n_zones):
@@ -43,7 +45,12 @@ def answers(inst):
     ver = C.from_console(p, 0x1F, C.version(*inst["version"]), pid=1)
     if p == "at4":
         names = C.from_console(p, 0x1F, C.at4_group_names([(z["n"], z["name"]) for z in zones]), pid=2)
-        ab = C.from_console(p, 0x1F, C.at4_ability([dict(a, groups=(None if inst.get("old_format") else a["zones"])) for a in acs]), pid=3)
+        # new format: the group bitmap governs; the legacy start/count bytes of such consoles are not
+        # reliable (repository comment: "group_count seems to be incorrect for newer console versions")
+        ab = C.from_console(p, 0x1F, C.at4_ability([
+            dict(a, groups=None) if inst.get("old_format") else
+            dict(a, groups=a["zones"], start=a.get("legacy_start", a["start"]), count=a.get("legacy_count", a["count"]))
+            for a in acs]), pid=3)
         acst = C.from_console(p, 0x2D, C.at4_ac_status([a["status"] for a in acs]), pid=4)
         tim = [a["timers"] for a in acs] + [(None, None)] * (4 - len(acs))
         timers = C.from_console(p, 0x37, C.at4_timer_status(tim), pid=5)
@@ -207,6 +214,20 @@ def c08_script(seed, proto):
     b.preamble()
     b.init(inst, snapshot=False)
     b.op(op="auto", how="ok")
+    if rng.random() < 0.2:
+        # the link goes half-open after an answered heartbeat: writes no longer complete (drain blocks),
+        # nothing is answered; the watchdog must still reset the link at its deadline
+        k = rng.randrange(0, 3)
+        for j in range(k + 1):
+            b.op(op="advance", to=300000 * j + 125)
+            b.op(op="feed", b=version_frame(proto, pid=rng.randrange(256)), tag="hb_response")
+            b.op(op="quiesce")
+        b.op(op="advance", to=300000 * k + rng.choice([1000, 150000, 299000]))
+        b.op(op="pause")
+        b.op(op="advance", to=300000 * (k + 4))
+        b.op(op="quiesce")
+        b.shutdown()
+        return b.script, {"proto": proto, "seed": seed, "pattern": "blocked_writes", "after_beat": k}
     lat = [125, 10000, 29875, 30250, 60000, None]
     n_beats = rng.randrange(3, 6)
     pattern = [rng.choice(lat) for _ in range(n_beats)]
@@ -440,8 +461,19 @@ def history_frame(inst, rng, combos=None):
         pl = C.at4_group_status(recs) if p == "at4" else C.at5_zone_status(recs, rlen=rng.choice([8, 9]))
         return "zone_status", C.from_console(p, 0x2B if p == "at4" else 0xC0, pl, pid=rng.randrange(256))
     if r < 0.82:
+        def flip(t):
+            """only the disabled bit changes, the time stays (set for 00:00 from a cleared slot; disabled with the time retained)"""
+            if t is None:
+                return (0, 0)
+            if len(t) == 3:
+                return (t[0], t[1])
+            return (t[0], t[1], "off")
         for a in acs:
-            if rng.random() < 0.6:
+            x = rng.random()
+            if x < 0.3:
+                on, off = a["timers"]
+                a["timers"] = (flip(on), off) if rng.random() < 0.5 else (on, flip(off))
+            elif x < 0.7:
                 a["timers"] = (rng.choice([None, (rng.randrange(24), rng.randrange(60))]), rng.choice([None, (rng.randrange(24), rng.randrange(60))]))
         if p == "at4":
             tim = [a["timers"] for a in acs] + [(None, None)] * (4 - len(acs))
